@@ -135,6 +135,9 @@ func NewSys(r *ev.Run, id string, p Pool, foreign, rich bool) *Sys {
 	return s
 }
 
+// Terminal reports that this state must not be explored further.
+func (s *Sys) Terminal() bool { return s.dead || s.broken }
+
 func (s *Sys) Close() {}
 
 func hx(b []byte) string { return fmt.Sprintf("%x", b) }
